@@ -39,15 +39,33 @@ def cases(draw):
     opt = draw(st.integers(0, 5))
     dbg = draw(st.lists(st.sampled_from(DEBUG_AREAS), min_size=1, max_size=4, unique=True))
     envs = draw(st.lists(st.tuples(st.sampled_from(['DEBUG_SIGHASH', 'DEBUG_SIGNING', 'DEBUG_SEGWIT', 'DEBUG_TAPROOT']), st.sampled_from(['0', '1'])), max_size=2))
-    return dict(script=script, stack=stack, removed=removed, mode=mode, opt=opt, dbg=dbg, envs=envs)
+    # textual delivery variants that must not change the result: blanks / CR around the script line, stack arguments written as inline expressions
+    pad = draw(st.sampled_from(['', '', '', ' ', '  ', '\t', ' \r']))
+    lead = draw(st.sampled_from(['', '', '', ' ', '\t']))
+    spell = [draw(st.sampled_from(['0x', '0x', '0x', 'echo', 'reverse', 'bech32dec'])) for _ in stack]
+    return dict(script=script, stack=stack, removed=removed, mode=mode, opt=opt, dbg=dbg, envs=envs, pad=pad, lead=lead, spell=spell)
 
 
 def case_json(c):
-    return dict(script=c['script'].hex(), stack=[x.hex() for x in c['stack']], removed=c['removed'], mode=c['mode'], opt=c['opt'], dbg=c['dbg'], envs=[list(e) for e in c['envs']])
+    return dict(script=c['script'].hex(), stack=[x.hex() for x in c['stack']], removed=c['removed'], mode=c['mode'], opt=c['opt'], dbg=c['dbg'], envs=[list(e) for e in c['envs']],
+                pad=c.get('pad', ''), lead=c.get('lead', ''), spell=c.get('spell'))
 
 
 def case_from_json(j):
-    return dict(script=bytes.fromhex(j['script']), stack=[bytes.fromhex(x) for x in j['stack']], removed=j['removed'], mode=j['mode'], opt=j['opt'], dbg=j['dbg'], envs=[tuple(e) for e in j['envs']])
+    return dict(script=bytes.fromhex(j['script']), stack=[bytes.fromhex(x) for x in j['stack']], removed=j['removed'], mode=j['mode'], opt=j['opt'], dbg=j['dbg'], envs=[tuple(e) for e in j['envs']],
+                pad=j.get('pad', ''), lead=j.get('lead', ''), spell=j.get('spell'))
+
+
+def spell_arg(x, how):
+    """a stack argument as hex literal or as an inline expression that evaluates to the same bytes"""
+    if how == 'echo' and len(x) > 4:
+        return 'echo(0x%s)' % x.hex()
+    if how == 'reverse' and len(x) > 4:
+        return 'reverse(0x%s)' % x[::-1].hex()
+    if how == 'bech32dec' and len(x) in (20, 32):
+        from ..ref import bech32 as B32
+        return 'bech32dec(%s)' % B32.segwit_encode('bc', 0, x)
+    return '0x' + x.hex()
 
 
 def invoke(c, mode=None, opt=None, variant='plain'):
@@ -67,11 +85,12 @@ def invoke(c, mode=None, opt=None, variant='plain'):
         args.append('-D' + ','.join(c['dbg']))
     if c['removed']:
         args.append('--modify-flags=' + ','.join('-' + n for n in c['removed']))
-    stackargs = ['0x' + x.hex() for x in c['stack']]
+    sp = c.get('spell') or ['0x'] * len(c['stack'])
+    stackargs = [spell_arg(x, sp[i] if i < len(sp) else '0x') for i, x in enumerate(c['stack'])]
     exe = cli.binpath('btcdeb', variant)
     if mode == 'argv':
         return cli.run(exe, args + [text] + stackargs, stdin_tty=True, env=cli.base_env(env))
-    return cli.run(exe, args + stackargs, stdin=text.encode() + b'\n', stdout_tty=(mode == 'stdin-outtty'), env=cli.base_env(env))
+    return cli.run(exe, args + stackargs, stdin=(c.get('lead', '') + text + c.get('pad', '')).encode() + b'\n', stdout_tty=(mode == 'stdin-outtty'), env=cli.base_env(env))
 
 
 def expected(c):
